@@ -256,20 +256,21 @@ def normalize_url(
     if not has_protocol:
         url = "http://" + url
 
-    # Platform-specific magic
-    if platform_aware:
-        if is_facebook_url(url):
-            p = parse_facebook_url(url)
-
-            if p is not None:
-                url = p.url
-
-        elif is_youtube_url(url):
-            url = normalize_youtube_url(url)
-
-    # Parsing
-    # NOTE: reading the port can also raise (e.g. "a.com:99999")
+    # NOTE: the platform-specific helpers parse the url too, and reading the
+    # port can also raise (e.g. "a.com:99999")
     try:
+        # Platform-specific magic
+        if platform_aware:
+            if is_facebook_url(url):
+                p = parse_facebook_url(url)
+
+                if p is not None:
+                    url = p.url
+
+            elif is_youtube_url(url):
+                url = normalize_youtube_url(url)
+
+        # Parsing
         splitted = urlsplit(url)
         port = splitted.port
     except ValueError:
